@@ -45,13 +45,23 @@ func (q *MultiOpQueryer) Subscribe(req *requests.Request, closeCh <-chan struct{
 	errCh := make(chan error)
 	defer close(errCh)
 
+	// closed when the handshake fails: nobody is going to listen then, so nobody
+	// is going to ask for the connection to be closed either
+	failed := make(chan struct{})
+
 	go func() {
 		defer func() {
 			recover()
 		}()
-		<-closeCh
+		select {
+		case <-closeCh:
+		case <-failed:
+		}
 		conn.Close()
 	}()
+
+	// set once the handshake is done, i.e. once the caller is going to listen on resCh
+	started := false
 
 	go func() {
 		defer func() {
@@ -63,7 +73,9 @@ func (q *MultiOpQueryer) Subscribe(req *requests.Request, closeCh <-chan struct{
 			}()
 			conn.Close()
 			// indicate that it's done
-			resCh <- nil
+			if started {
+				resCh <- nil
+			}
 		}()
 
 		bInitMsg, err := json.Marshal(requests.ClientSubMsg{
@@ -96,6 +108,7 @@ func (q *MultiOpQueryer) Subscribe(req *requests.Request, closeCh <-chan struct{
 		}
 
 		// init proccess is done
+		started = true
 		errCh <- nil
 
 		for {
@@ -130,6 +143,7 @@ func (q *MultiOpQueryer) Subscribe(req *requests.Request, closeCh <-chan struct{
 	}()
 
 	if err := <-errCh; err != nil {
+		close(failed)
 		return err
 	}
 
